@@ -86,6 +86,23 @@ Supported subset
               assignment (`stmt_rewrites`: numpy in-place masked assignment), `return`-less mutator methods
               (MutatorTr: self is the list, super(C, self).append / insert / __setitem__ / __delitem__ are the
               list operations, a call of another translated mutator replaces self).
+  third round a text file open for reading (type `file`: the list of the lines that remain, each with its line end):
+              `x = f.readline()` (the next line, "" at the end; f moves on), `for line in f` / `enumerate(f)` /
+              `enumerate(f, start=e)` (the remaining lines; f is not available in the body nor after the loop);
+              t[k] with a constant k on a tuple of declared shape; `continue` (and `break`) in a for loop whose
+              body does not raise, also with inner loops that have no break / continue of their own; an iterated
+              expression that may raise (evaluated once, before the loop); `assert c` (AssertionError);
+              `try: BODY except <Class>: H else: E` (E and what follows run outside the handler; AssertionError is
+              a supported class); [x for x in l if c] (List.filter); len(set(<list of int>)) (pyo_distinct);
+              `s in l` / `s not in l` on (compiled pattern, template) pairs (pyo_sub_eqb: equality of the parsed
+              pattern and template); <module regex>.findall(s) and line_splitter(s) as lists of "joined" values
+              (each match presented as "".join(<its groups>), the only use lasio makes of them; "".join(t) is
+              then the value itself); s.replace(<one char>, ""); chr(<int constant>);
+              mod.NAME for a module-level constant of another lasio module (`module_consts_decl`: the literal is
+              re-read from lasio/mod.py by ast on every run and rendered by its declared type - str / list /
+              dict with str keys / tuple / re.compile(<const>) / template; refused if the name is bound more than
+              once, if anything in the package assigns into it, deletes from it or calls a mutating method on
+              it (aliases are not followed), or if `mod` is not bound exactly once by `from . import mod`).
   refused     a translated name that is bound a second time in its module / class (or assigned through
               Class.name / setattr / global) is refused: the translation would not be what runs.
   fragments   BlockTr (a block of a big method from an anchor statement to the end of its statement list, or its
@@ -116,6 +133,8 @@ STR, INT, BOOL, PAT, PATS, DYN, NONE, MATCH = "str", "int", "bool", "pat", "pats
 ITEM, KEYS, VERSION, OTABLE, OENTRY, OEX, FLOATV, REGEX, TPL, ARR, CURVE, SAMPLE, SECTION = \
     "item", "keys", "version", "otable", "oentry", "oex", "floatv", "regex", "tpl", "arr", "curve", "sample", "section"
 MATCHOBJ = "matchobj"
+FILE, JOINED = "file", "joined"
+SUBPAIR = ("tuple", "regex", "tpl")
 
 
 def LIST(t):
@@ -143,7 +162,7 @@ SIMPLE_TYPE = {STR: "list N", INT: "Z", BOOL: "bool", PAT: "list frag", PATS: "l
                OTABLE: "list ((las_version * list N) * order_entry)", OENTRY: "order_entry",
                OEX: "(item_order * list (list N))", FLOATV: "F", REGEX: "re", TPL: "list tpl", ARR: "A", CURVE: "C",
                SAMPLE: "Smp", SECTION: "(bool * list (py_item V))",
-               MATCHOBJ: "option st"}
+               MATCHOBJ: "option st", FILE: "list (list N)", JOINED: "list N"}
 
 
 def is_type(ty, kind):
@@ -357,6 +376,55 @@ Record json_ops (V : Type) := mk_json_ops {
 Arguments j_is_np_integer {V}. Arguments j_is_float {V}. Arguments j_is_finite {V}.
 Arguments j_int {V}. Arguments j_float {V}. Arguments j_none {V}.
 Arguments np_int64 {V F}. Arguments np_float64 {V F}. Arguments np_isfinite {V F}. Arguments num_of_float {V F}.
+(* a text file open for reading, as the translated functions see it: the lines that remain, each with its
+   line end.  f.readline() is the next line ("" at the end of the file) and moves on by one line; iterating
+   over f yields the remaining lines; enumerate(l, start=k) *)
+Definition pyo_readline_line (f : list (list N)) : list N := match f with [] => [] | l :: _ => l end.
+Definition pyo_readline_rest (f : list (list N)) : list (list N) := match f with [] => [] | _ :: r => r end.
+Definition pyo_enumerate_from {A : Type} (k : Z) (l : list A) : list (Z * A) :=
+  List.combine (List.map (fun i => (k + i)%Z) (pyo_range (pyo_llen l))) l.
+(* len(set(l)) on a list of ints: the distinct values, in order of first appearance *)
+Fixpoint pyo_distinct (l : list Z) : list Z :=
+  match l with
+  | [] => []
+  | x :: r => x :: List.filter (fun y => negb (y =? x)%Z) (pyo_distinct r)
+  end.
+(* == on (compiled pattern, template) pairs: CPython compares the pattern strings (and flags) and the
+   template strings; here: the parsed patterns and templates (two spellings of one pattern would be
+   identified; the pins show that the entries of defaults.READ_SUBS are pairwise different) *)
+Fixpoint pyo_list_eqb {A : Type} (eqb : A -> A -> bool) (a b : list A) : bool :=
+  match a, b with
+  | [], [] => true
+  | x :: a', y :: b' => eqb x y && pyo_list_eqb eqb a' b'
+  | _, _ => false
+  end.
+Fixpoint pyo_cls_eqb (a b : cls) : bool :=
+  match a, b with
+  | CAny, CAny | CSpace, CSpace | CDigit, CDigit => true
+  | CChar x, CChar y => x =? y
+  | CRange x1 x2, CRange y1 y2 => (x1 =? y1) && (x2 =? y2)
+  | CNot x, CNot y => pyo_cls_eqb x y
+  | COr x1 x2, COr y1 y2 => pyo_cls_eqb x1 y1 && pyo_cls_eqb x2 y2
+  | _, _ => false
+  end.
+Fixpoint pyo_re_eqb (a b : re) : bool :=
+  match a, b with
+  | Eps, Eps | AtEnd, AtEnd | AtEndStr, AtEndStr => true
+  | Cls x, Cls y | Star x, Star y | Plus x, Plus y | LStar x, LStar y => pyo_cls_eqb x y
+  | Seq x1 x2, Seq y1 y2 | Alt x1 x2, Alt y1 y2 => pyo_re_eqb x1 y1 && pyo_re_eqb x2 y2
+  | Opt x, Opt y => pyo_re_eqb x y
+  | Grp n x, Grp k y => Nat.eqb n k && pyo_re_eqb x y
+  | NotBehind x, NotBehind y | NotAhead x, NotAhead y => pyo_list_eqb (pyo_list_eqb pyo_cls_eqb) x y
+  | _, _ => false
+  end.
+Definition pyo_tpl_eqb (a b : tpl) : bool :=
+  match a, b with
+  | TLit x, TLit y => str_eqb x y
+  | TGrp n, TGrp k => Nat.eqb n k
+  | _, _ => false
+  end.
+Definition pyo_sub_eqb (a b : re * list tpl) : bool :=
+  pyo_re_eqb (fst a) (fst b) && pyo_list_eqb pyo_tpl_eqb (snd a) (snd b).
 (* the AST of a concatenation of pattern strings, shaped as translators/regexes.py shapes a
    sequence *)
 Fixpoint seq_of (l : list re) : re :=
@@ -425,6 +493,7 @@ class Tr:
         self.loop_ret = []       # inside loops with a return: is the context around the loop partial?
         self.handlers = []       # enclosing `try ... except <Class>:` handlers, innermost last
         self.loop_brk = []       # inside loops with a break: what `break` emits
+        self.loop_cont = []      # ... and what `continue` emits
         self.alias = {}          # x -> (l, i, binding counts) after `x = l[i]`
         self.bind_count = {}
 
@@ -531,6 +600,10 @@ class Tr:
             if same_ast(n, src):
                 # (code, type) or (code, type, the exception class when code is an option)
                 return E(ce[0], ce[1]) if len(ce) == 2 else E(ce[0], ce[1], True, exc=ce[2])
+        mc = self.spec.get("module_consts", {})
+        if isinstance(n, ast.Attribute) and isinstance(n.value, ast.Name) and n.value.id not in env and ast.unparse(n) in mc:
+            # a module-level constant of another lasio module, rendered from its source (module_constant)
+            return E(mc[ast.unparse(n)][0], mc[ast.unparse(n)][1])
         if isinstance(n, ast.Name):
             if n.id not in env:
                 self.err(n, "unknown name %r" % n.id)
@@ -644,7 +717,7 @@ class Tr:
         if len(n.generators) != 1:
             self.err(n, "nested comprehension")
         g = n.generators[0]
-        if g.ifs or g.is_async or not isinstance(g.target, ast.Name):
+        if len(g.ifs) > 1 or g.is_async or not isinstance(g.target, ast.Name):
             self.err(n, "unsupported comprehension")
         it = self.expr(g.iter, env)
         if not is_type(it.ty, "list"):
@@ -655,7 +728,15 @@ class Tr:
         if body.partial:
             self.err(n, "comprehension element may raise")
         ety = self.ctype(it.ty[1], n)
-        return self.strict([it], lambda c: "List.map (fun %s : %s => %s) (%s)" % (self.var(g.target.id), ety, body.code, c[0]),
+        src = lambda c: c[0]
+        if g.ifs:
+            cond = self.test(g.ifs[0], env2)
+            if cond.partial:
+                self.err(n, "comprehension condition may raise")
+            src = lambda c: "List.filter (fun %s : %s => %s) (%s)" % (self.var(g.target.id), ety, cond.code, c[0])
+            if isinstance(n.elt, ast.Name) and n.elt.id == g.target.id:
+                return self.strict([it], src, it.ty)
+        return self.strict([it], lambda c: "List.map (fun %s : %s => %s) (%s)" % (self.var(g.target.id), ety, body.code, src(c)),
                            LIST(body.ty))
 
     def dictcomp(self, n, env):
@@ -840,6 +921,9 @@ class Tr:
                 return self.strict([b, a], lambda c: wrap("pyo_is_some (%s_item (%s) (%s))" % (pre, c[0], c[1])), BOOL)
             if a.ty == STR and b.ty == LIST(STR):
                 return self.strict([a, b], lambda c: wrap("pyo_in_list (%s) (%s)" % (c[0], c[1])), BOOL)
+            if a.ty == SUBPAIR and b.ty == LIST(SUBPAIR):
+                # == on (compiled pattern, template) pairs: equality of the parsed pattern and of the template
+                return self.strict([a, b], lambda c: wrap("existsb (pyo_sub_eqb (%s)) (%s)" % (c[0], c[1])), BOOL)
             self.err(n, "in on %s and %s" % (a.ty, b.ty))
         if isinstance(op, (ast.Is, ast.IsNot)):
             if a.ty == DYN and b.ty == NONE:
@@ -923,6 +1007,12 @@ class Tr:
                 self.err(n, "order table indexed by %s and %s" % (ver.ty, sec.ty))
             return self.partial_op([t, ver, sec], lambda c: "pyo_order_lookup (%s) (%s) (%s)" % (c[0], c[1], c[2]), OENTRY)
         s = self.expr(v, env)
+        if is_type(s.ty, "tuple"):
+            # t[k] with a constant k on a tuple of declared shape
+            if not (isinstance(sl, ast.Constant) and type(sl.value) is int and 0 <= sl.value < len(s.ty) - 1):
+                self.err(n, "tuple subscript other than a constant index in range")
+            names = ["p%d_" % i for i in range(len(s.ty) - 1)]
+            return self.strict([s], lambda c: "(let '(%s) := %s in %s)" % (", ".join(names), c[0], names[sl.value]), s.ty[1 + sl.value])
         if s.ty == KEYS:
             if isinstance(sl, ast.Constant) and sl.value in KEYS_FIELDS:
                 return self.strict([s], lambda c: "k_%s (%s)" % (sl.value, c[0]), STR)
@@ -1032,6 +1122,14 @@ class Tr:
     def call(self, n, env):
         if isinstance(n.func, ast.Name) and n.func.id in self.spec.get("local_calls", ()) and n.func.id not in env:
             return self.local_call(n, env)
+        if isinstance(n.func, ast.Name) and n.func.id == "enumerate" and "enumerate" not in env and len(n.args) == 1 \
+                and len(n.keywords) == 1 and n.keywords[0].arg == "start":
+            # enumerate(l, start=e)
+            a, st = self.expr(n.args[0], env), self.expr(n.keywords[0].value, env)
+            if not (is_type(a.ty, "list") or a.ty == FILE) or st.ty != INT:
+                self.err(n, "enumerate of %s from %s" % (a.ty, st.ty))
+            ety = STR if a.ty == FILE else a.ty[1]
+            return self.strict([a, st], lambda c: "pyo_enumerate_from (%s) (%s)" % (c[1], c[0]), LIST(TUPLE(INT, ety)))
         if n.keywords:
             self.err(n, "keyword arguments")
         f = n.func
@@ -1054,6 +1152,12 @@ class Tr:
             if f.id in REGISTRY and REGISTRY[f.id].get("file") == self.spec["file"]:
                 # another module-level function of the same module, translated earlier
                 return self.call_registered(f.id, [self.expr(a, env) for a in n.args], n)
+            if f.id == "len" and len(n.args) == 1 and isinstance(n.args[0], ast.Call) and isinstance(n.args[0].func, ast.Name) \
+                    and n.args[0].func.id == "set" and "set" not in env and len(n.args[0].args) == 1 and not n.args[0].keywords:
+                a = self.expr(n.args[0].args[0], env)
+                if a.ty != LIST(INT):
+                    self.err(n, "len(set(_)) of %s" % (a.ty,))
+                return self.strict([a], lambda c: "pyo_llen (pyo_distinct (%s))" % c[0], INT)
             if f.id == "len" and len(n.args) == 1:
                 a = self.expr(n.args[0], env)
                 if a.ty == STR:
@@ -1063,8 +1167,13 @@ class Tr:
                 self.err(n, "len of %s" % (a.ty,))
             if f.id == "str" and len(n.args) == 1:
                 return self.to_str(self.expr(n.args[0], env), n)
+            if f.id == "chr" and len(n.args) == 1 and isinstance(n.args[0], ast.Constant) and type(n.args[0].value) is int \
+                    and 0 <= n.args[0].value < 0x110000:
+                return E(cstr(chr(n.args[0].value)), STR, const=chr(n.args[0].value))
             if f.id == "enumerate" and len(n.args) == 1:
                 a = self.expr(n.args[0], env)
+                if a.ty == FILE:
+                    return self.strict([a], lambda c: "pyo_enumerate (%s)" % c[0], LIST(TUPLE(INT, STR)))
                 if not is_type(a.ty, "list"):
                     self.err(n, "enumerate of %s" % (a.ty,))
                 return self.strict([a], lambda c: "pyo_enumerate (%s)" % c[0], LIST(TUPLE(INT, a.ty[1])))
@@ -1136,6 +1245,12 @@ class Tr:
             return self.strict([s], lambda c: "re_search %s (%s)" % (name, c[0]), MATCH)
         mrx = self.spec.get("module_regexes", {})
         if isinstance(f.value, ast.Name) and f.value.id in mrx and f.value.id not in env:
+            if f.attr == "findall" and len(n.args) == 1:
+                # the list of matches, each presented as "".join(<its groups>) (the only use made of them)
+                s = self.expr(n.args[0], env)
+                if s.ty != STR:
+                    self.err(n, "findall subject of type %s" % (s.ty,))
+                return self.strict([s], lambda c: "re_findall_joined %s (%s)" % (mrx[f.value.id], c[0]), LIST(JOINED))
             if f.attr != "fullmatch" or len(n.args) != 1:
                 self.err(n, "unsupported method of a compiled pattern")
             s = self.expr(n.args[0], env)
@@ -1164,6 +1279,11 @@ class Tr:
         m = f.attr
         args = [self.expr(a, env) for a in n.args]
         tys = [a.ty for a in args]
+        if r.ty == STR and r.const == "" and m == "join" and tys == [JOINED]:
+            return self.strict([args[0]], lambda c: c[0], STR)          # "".join(t): what a JOINED value stands for
+        if r.ty == STR and m == "replace" and tys == [STR, STR] and args[1].const == "" and isinstance(args[0].const, str) \
+                and len(args[0].const) == 1:
+            return self.strict([r], lambda c: "remove_char %d (%s)" % (ord(args[0].const), c[0]), STR)
         if r.ty == MATCHOBJ and m == "groupdict" and not args:
             # AttributeError on None
             return self.partial_op([r], lambda c: "option_map pyo_groupdict (%s)" % c[0], DICT(STR, STR), exc="AttributeError")
@@ -1232,7 +1352,7 @@ class Tr:
     # ---- statements ------------------------------------------------------------------------
     @staticmethod
     def has_return(stmts):
-        return any(isinstance(x, (ast.Return, ast.Raise, ast.Break)) for s in stmts for x in ast.walk(s))
+        return any(isinstance(x, (ast.Return, ast.Raise, ast.Break, ast.Continue)) for s in stmts for x in ast.walk(s))
 
     def assigned(self, stmts, acc):
         """names (re)bound by a statement list, in order of first appearance"""
@@ -1262,6 +1382,8 @@ class Tr:
                 add(elem_of[s.value.func.value.id])      # changing an element changes the list it was taken from
             if sink and isinstance(s, ast.Expr) and isinstance(s.value, ast.Call) and same_ast(s.value.func, sink[0] + ".write"):
                 add(sink[1])
+            if isinstance(s, ast.Assign) and self.is_readline(s.value):
+                add(s.value.func.value.id)               # reading a line moves the file on
             if isinstance(s, ast.Assign):
                 for t in s.targets:
                     target(t)
@@ -1398,6 +1520,20 @@ class Tr:
             if rest or not self.loop_brk:
                 self.err(s, "unsupported break")
             return self.loop_brk[-1](env)
+        if isinstance(s, ast.Continue):
+            if rest or not self.loop_cont:
+                self.err(s, "unsupported continue")
+            return self.loop_cont[-1](env)
+        if isinstance(s, ast.Assert):
+            # assert c: AssertionError when c is false (the message is not evaluated otherwise and is not modelled)
+            t = self.test(s.test, env)
+            if t.partial:
+                self.err(s, "the asserted test may raise")
+            h = self.route(E("", BOOL, True, exc="AssertionError"), s) if self.handlers else None
+            if h is not None:
+                return "if %s then\n%s\nelse\n%s" % (t.code, indent(go(env)), indent(self.handled(h, env)))
+            self.need_partial(s)
+            return "if %s then\n%s\nelse None" % (t.code, indent(go(env)))
         if isinstance(s, ast.Raise):
             if rest:
                 self.err(rest[0], "statement after raise")
@@ -1493,6 +1629,11 @@ class Tr:
                 return "obind (%s) (fun %s =>\nif %s then\n%s\nelse\n%s)" % (t.code, v, v, indent(a), indent(b))
             return "if %s then\n%s\nelse\n%s" % (t.code, indent(a), indent(b))
         self.err(s, "unsupported statement %s" % type(s).__name__)
+
+    @staticmethod
+    def is_readline(v):
+        return isinstance(v, ast.Call) and isinstance(v.func, ast.Attribute) and v.func.attr == "readline" \
+            and isinstance(v.func.value, ast.Name) and not v.args and not v.keywords
 
     @staticmethod
     def is_logger_call(s):
@@ -1611,6 +1752,14 @@ class Tr:
             return pre + go(env2) + post
         if not isinstance(tg, ast.Name):
             self.err(s, "unsupported assignment target")
+        if self.is_readline(v) and env.get(v.func.value.id) == FILE:
+            # name = f.readline(): the next line ("" at the end of the file); f moves on by one line
+            f = v.func.value.id
+            if tg.id == f:
+                self.err(s, "the file is rebound to a line")
+            pre1, post1, env1 = self.bind(tg.id, E("pyo_readline_line %s" % self.var(f), STR), env, s)
+            pre2, post2, env2 = self.bind(f, E("pyo_readline_rest %s" % self.var(f), FILE), env1, s)
+            return pre1 + pre2 + go(env2) + post2 + post1
         name = tg.id
         if name in [p for p, t in self.spec["params"] if t is None]:
             self.err(s, "assignment to an untyped parameter")
@@ -1706,13 +1855,18 @@ class Tr:
     def for_stmt(self, s, env, go):
         if self.handlers:
             self.err(s, "a loop inside try/except")
-        breaks = any(isinstance(x, ast.Break) for b in s.body for x in ast.walk(b))
+        breaks = any(isinstance(x, (ast.Break, ast.Continue)) for b in s.body for x in ast.walk(b))
+        raises = self.spec.get("loop_raise") and any(isinstance(x, ast.Raise) for b in s.body for x in ast.walk(b))
         for x in ast.walk(s):
-            if isinstance(x, (ast.Continue, ast.Raise, ast.FunctionDef, ast.Lambda, ast.While)) or (isinstance(x, ast.Break) and not breaks):
+            if isinstance(x, (ast.FunctionDef, ast.Lambda, ast.While)) or (isinstance(x, ast.Raise) and not raises):
                 self.err(x, "%s inside a for loop" % type(x).__name__)
-        if breaks:
-            if s.orelse or any(isinstance(x, (ast.Return, ast.For)) for b in s.body for x in ast.walk(b)):
-                self.err(s, "a loop with break and else / return / an inner loop")
+        if breaks or raises:
+            if s.orelse or any(isinstance(x, ast.Return) for b in s.body for x in ast.walk(b)):
+                self.err(s, "a loop with break / continue and else / return")
+            for b in s.body:
+                for inner in ast.walk(b):
+                    if isinstance(inner, ast.For) and any(isinstance(x, (ast.Break, ast.Continue, ast.Raise)) for x in ast.walk(inner)):
+                        self.err(inner, "break / continue / raise in a loop inside a loop with break / continue")
         if s.orelse:
             # no break: the else clause simply runs after the loop
             after, go = go, (lambda env2: self.stmts(s.orelse, env2, after))
@@ -1729,12 +1883,27 @@ class Tr:
             it = self.expr(it_node, env)
             if it.ty == PATS:
                 ety = PAT
+            elif it.ty == FILE:
+                ety = STR
             elif not is_type(it.ty, "list"):
                 self.err(s, "iteration over %s" % (it.ty,))
             else:
                 ety = it.ty[1]
         if it.partial:
-            self.err(s, "the iterated expression may raise")
+            # the iterated expression is evaluated once, before the loop
+            self.need_partial(s)
+            t_it = self.fresh()
+            inner = self.for_stmt_on(s, env, go, E(t_it, it.ty), ety, returns, breaks or raises)
+            return "obind (%s) (fun %s =>\n%s)" % (it.code, t_it, inner)
+        return self.for_stmt_on(s, env, go, it, ety, returns, breaks or raises)
+
+    def for_stmt_on(self, s, env, go, it, ety, returns, breaks):
+        # a file that is iterated is used up: it is not available in the body nor after the loop
+        files = [x.id for x in ast.walk(s.iter) if isinstance(x, ast.Name) and env.get(x.id) == FILE]
+        if files:
+            env = dict(env)
+            for f in files:
+                env[f] = None
         # the loop variable(s)
         x = self.fresh()
         tg = s.target
@@ -1814,12 +1983,14 @@ class Tr:
                     self.err(s, "the loop changes the type of %r" % nm)
             return "%s %s" % (tag, tup)
         self.loop_brk.append(lambda env2: leave(env2, "inl"))
+        self.loop_cont.append(lambda env2: leave(env2, "inr"))
         self.pmode.append(False)
         try:
             body = self.stmts(s.body, env_body, lambda env2: leave(env2, "inr"))
         finally:
             self.pmode.pop()
             self.loop_brk.pop()
+            self.loop_cont.pop()
         env3 = dict(env)
         for nm in touched + tnames:
             if nm not in state:
@@ -1827,7 +1998,7 @@ class Tr:
         acc, r = self.fresh(), self.fresh()
         return ("let %s :=\n  match fold_left (fun %s %s => match %s with inl %s => inl %s | inr %s =>\n%s\n    end) (%s) (inr %s) with\n"
                 "  | inl %s => %s\n  | inr %s => %s\n  end in\n%s") % (
-            pat, acc, binder, acc, r, r, pat, indent(unpack + body, 6), it.code, tup, r, r, r, r, go(env3))
+            pat, acc, binder, acc, r, r, tup, indent(unpack + body, 6), it.code, tup, r, r, r, r, go(env3))
 
     def for_return(self, s, env, go, state, targets, binder, unpack, it, touched, tnames):
         """a loop whose body may return: the fold carries inl <the function's result> once a return
@@ -1838,7 +2009,7 @@ class Tr:
         for nm, t in targets:
             env_body[nm] = t
         tup = ("(" + ", ".join(self.var(nm) for nm in state) + ")" if len(state) > 1 else self.var(state[0])) if state else "tt"
-        pat = ("'" + tup if len(state) > 1 else tup) if state else "_"
+        mpat = tup if state else "_"          # as a match pattern
 
         def end(env2):
             for nm in state:
@@ -1859,17 +2030,20 @@ class Tr:
         acc, r = self.fresh(), self.fresh()
         return ("match fold_left (fun %s %s => match %s with inl %s => inl %s | inr %s =>\n%s\n  end) (%s) (inr %s) with\n"
                 "| inl %s => %s\n| inr %s =>\n%s\nend") % (
-            acc, binder, acc, r, r, pat, indent(unpack + body, 4), it.code, tup, r, r, pat, indent(go(env3)))
+            acc, binder, acc, r, r, mpat, indent(unpack + body, 4), it.code, tup, r, r, mpat, indent(go(env3)))
 
     def try_stmt(self, s, env, go):
         hs = s.handlers
-        if len(hs) != 1 or hs[0].name is not None or s.orelse or s.finalbody:
+        if len(hs) != 1 or hs[0].name is not None or s.finalbody:
             self.err(s, "unsupported try statement")
         h = hs[0]
+        if s.orelse and not (isinstance(h.type, ast.Name) and h.type.id in ("TypeError", "IndexError", "KeyError", "ValueError",
+                                                                             "AssertionError")):
+            self.err(s, "try / else with this handler")
         if isinstance(h.type, ast.Name) and h.type.id == "AttributeError" and len(h.body) == 1 and isinstance(h.body[0], ast.Pass):
             # no supported operation on the declared types raises AttributeError
             return self.stmts(s.body, env, go)
-        CLASSES = ("TypeError", "IndexError", "KeyError", "ValueError")
+        CLASSES = ("TypeError", "IndexError", "KeyError", "ValueError", "AssertionError")
         if isinstance(h.type, ast.Name) and h.type.id in CLASSES and h.type.id not in env:
             # try: BODY except <Class>: HANDLER -- every operation of BODY that raises <Class> continues with
             # HANDLER (with the variables as they are at that point), then with what follows the try
@@ -1877,10 +2051,11 @@ class Tr:
             self.handlers.append(ctx)
 
             def go3(env2):
+                # the else clause and what follows the try run outside the handler
                 i = self.handlers.index(ctx)
                 saved, self.handlers = self.handlers, self.handlers[:i]
                 try:
-                    return go(env2)
+                    return self.stmts(s.orelse, env2, go)
                 finally:
                     self.handlers = saved
             try:
@@ -2610,6 +2785,14 @@ SPECS += [
                       "np.isfinite(x)": ("j_is_finite jops v_x", BOOL),
                       "int(x)": ("j_int jops v_x", DYN), "float(x)": ("j_float jops v_x", DYN),
                       "None": ("j_none jops", DYN)}),
+    dict(py="inspect_data_section", file="reader.py", cls=None, coq="py_inspect_data_section",
+         params=[("file_obj", FILE), ("line_nos", TUPLE(INT, INT)), ("regexp_subs", LIST(SUBPAIR)), ("ignore_data_comments", STR),
+                 ("line_splitter", OPT(FUNC([STR], LIST(JOINED))))],
+         defaults={"ignore_data_comments": '"#"'},
+         locals={"item_counts": LIST(INT), "hyphen_exists": LIST(INT), "hyphen_subs": LIST(SUBPAIR)},
+         module_regexes={"sow_regex": "rx_sow"},
+         module_consts_decl={"defaults.HYPHEN_SUBS": LIST(STR), "defaults.READ_SUBS": DICT(STR, LIST(SUBPAIR))},
+         ret=TUPLE(INT, LIST(SUBPAIR))),
     dict(py="get_section_widths", file="writer.py", cls=None, coq="py_get_section_widths",
          params=[("section_name", None), ("items", LIST(ITEM)), ("version", None), ("order_func", FUNC([STR], STR))],
          locals={"section_widths": DICT(STR, OPT(INT)), "middle_widths": LIST(INT)}, ret=DICT(STR, OPT(INT))),
@@ -2667,6 +2850,108 @@ def check_not_rebound(tree, spec, fn):
         raise TranslateError("class %s is bound more than once" % cls)
 
 
+MUTATORS = ("append", "extend", "insert", "pop", "update", "clear", "remove", "sort", "reverse", "setdefault", "popitem",
+            "__setitem__", "__delitem__")
+
+
+def render_literal(node, ty, what):
+    """Gallina for a literal of another module's source, by the declared type"""
+    def bad(msg):
+        raise TranslateError("%s: line %s: %s" % (what, getattr(node, "lineno", "?"), msg))
+    if ty == STR:
+        if not (isinstance(node, ast.Constant) and isinstance(node.value, str)):
+            bad("expected a string constant")
+        return cstr(node.value)
+    if ty == TPL:
+        if not (isinstance(node, ast.Constant) and isinstance(node.value, str)):
+            bad("expected a template string constant")
+        try:
+            return regexes.translate_template(node.value)
+        except regexes.TranslateError as e:
+            bad("template %r: %s" % (node.value, e))
+    if ty == REGEX:
+        if not (isinstance(node, ast.Call) and same_ast(node.func, "re.compile") and len(node.args) == 1 and not node.keywords
+                and isinstance(node.args[0], ast.Constant) and isinstance(node.args[0].value, str)):
+            bad("expected re.compile(<string constant>)")
+        try:
+            return regexes.translate(node.args[0].value)
+        except regexes.TranslateError as e:
+            bad("pattern %r: %s" % (node.args[0].value, e))
+    if is_type(ty, "list"):
+        if not isinstance(node, ast.List):
+            bad("expected a list display")
+        if not node.elts:
+            return "([] : %s)" % coq_type(ty)
+        return "[" + "; ".join(render_literal(x, ty[1], what) for x in node.elts) + "]"
+    if is_type(ty, "tuple"):
+        if not (isinstance(node, ast.Tuple) and len(node.elts) == len(ty) - 1):
+            bad("expected a tuple of %d" % (len(ty) - 1))
+        return "(" + ", ".join(render_literal(x, t, what) for x, t in zip(node.elts, ty[1:])) + ")"
+    if is_type(ty, "dict") and ty[1] == STR:
+        if not isinstance(node, ast.Dict):
+            bad("expected a dict display")
+        keys = []
+        for k in node.keys:
+            if not (isinstance(k, ast.Constant) and isinstance(k.value, str)) or k.value in keys:
+                bad("dict keys must be distinct string constants")
+            keys.append(k.value)
+        if not keys:
+            return "([] : %s)" % coq_type(ty)
+        return "[" + ";\n   ".join("(%s, %s)" % (cstr(k), render_literal(v, ty[2], what)) for k, v in zip(keys, node.values)) + "]"
+    bad("no rendering for type %s" % (ty,))
+
+
+def module_constant(repo, using_tree, qual, ty):
+    """`mod.NAME` used in a translated function of lasio/<using file>: mod is bound once there, by
+    `from . import mod`; NAME is bound once at module level of lasio/mod.py, to a literal; nothing in the
+    package assigns into it, deletes from it or calls a mutating method on it (aliases are not followed)"""
+    mod, name = qual.split(".")
+    imps = binders_of(using_tree.body, mod)
+    if len(imps) != 1 or not (isinstance(imps[0], ast.ImportFrom) and imps[0].level == 1 and imps[0].module is None
+                              and any(a.name == mod and a.asname is None for a in imps[0].names)):
+        raise TranslateError("%s is not bound exactly once by `from . import %s`" % (mod, mod))
+    path = os.path.join(repo, "lasio", mod + ".py")
+    tree = ast.parse(open(path, encoding="utf-8").read())
+    bs = binders_of(tree.body, name)
+    if len(bs) != 1 or not (bs[0] in tree.body and isinstance(bs[0], ast.Assign) and len(bs[0].targets) == 1
+                            and isinstance(bs[0].targets[0], ast.Name)):
+        raise TranslateError("%s is not bound exactly once, by a plain module-level assignment" % qual)
+    pkg = os.path.join(repo, "lasio")
+    for root, _, files in os.walk(pkg):
+        for fn in files:
+            if not fn.endswith(".py"):
+                continue
+            t = tree if os.path.join(root, fn) == path else ast.parse(open(os.path.join(root, fn), encoding="utf-8").read())
+            inside = os.path.join(root, fn) == path
+
+            def is_const(x):
+                if isinstance(x, ast.Attribute) and x.attr == name and isinstance(x.value, (ast.Name, ast.Attribute)):
+                    return True              # <anything>.NAME
+                return inside and isinstance(x, ast.Name) and x.id == name
+            for x in ast.walk(t):
+                if isinstance(x, (ast.Subscript, ast.Attribute)) and isinstance(x.ctx, (ast.Store, ast.Del)):
+                    y = x
+                    while isinstance(y, (ast.Subscript, ast.Attribute)):
+                        if is_const(y) and y is not x:
+                            raise TranslateError("%s is assigned into at %s:%d" % (qual, fn, x.lineno))
+                        if is_const(y) and y is x and isinstance(x, ast.Attribute):
+                            raise TranslateError("%s is rebound at %s:%d" % (qual, fn, x.lineno))
+                        y = y.value
+                if isinstance(x, ast.AugAssign) and is_const(x.target) and not (inside and x in tree.body and False):
+                    raise TranslateError("%s is changed in place at %s:%d" % (qual, fn, x.lineno))
+                if isinstance(x, ast.Call) and isinstance(x.func, ast.Attribute) and x.func.attr in MUTATORS:
+                    y = x.func.value
+                    while isinstance(y, (ast.Subscript, ast.Attribute)):
+                        if is_const(y):
+                            raise TranslateError("%s.%s(...) at %s:%d" % (qual, x.func.attr, fn, x.lineno))
+                        y = y.value
+                    if is_const(y):
+                        raise TranslateError("%s.%s(...) at %s:%d" % (qual, x.func.attr, fn, x.lineno))
+                if isinstance(x, (ast.Global, ast.Nonlocal)) and name in x.names:
+                    raise TranslateError("`global %s` at %s:%d" % (name, fn, x.lineno))
+    return render_literal(bs[0].value, ty, qual)
+
+
 def find_function(tree, spec):
     scope = tree.body
     if spec.get("cls"):
@@ -2688,6 +2973,7 @@ def find_function(tree, spec):
 def render(repo):
     out = [PRELUDE]
     trees = {}
+    consts_done = {}
     REGISTRY.clear()
     for spec in SPECS:
         if "raw" in spec:
@@ -2699,6 +2985,20 @@ def render(repo):
             trees[path] = ast.parse(open(path, encoding="utf-8").read())
         fn = find_function(trees[path], spec)
         check_not_rebound(trees[path], spec, fn)
+        if "module_consts_decl" in spec:
+            spec["module_consts"] = {}
+            for qual, ty in spec["module_consts_decl"].items():
+                cname = "py_const_" + qual.replace(".", "_")
+                code = module_constant(repo, trees[path], qual, ty)
+                if cname not in consts_done:
+                    consts_done[cname] = ty
+                    out.append("(* ---- %s (lasio/%s.py) ---- *)" % (qual, qual.split(".")[0]))
+                    out.append("Definition %s : %s :=\n  %s.\n" % (cname, coq_type(ty), code))
+                elif consts_done[cname] != ty:
+                    raise TranslateError("%s declared with two types" % qual)
+                spec["module_consts"][qual] = (cname, ty)
+                if qual.split(".")[0] in Tr(spec).assigned(fn.body, []):
+                    raise TranslateError("%s: the name %s is assigned in the function" % (spec["py"], qual.split(".")[0]))
         tr = (spec.get("translator") or Tr)(spec)
         out.append("(* ---- %s:%s%s%s ---- *)" % (spec["file"], spec["cls"] + "." if spec.get("cls") else "", spec["py"],
                                                  " / " + spec["coq"] if spec.get("translator") else ""))
